@@ -53,8 +53,8 @@ collations: dict[str, Callable[[str, str, str], bool]] = {
     # TODO(jelmer): Follow all rules as specified in
     # https://datatracker.ietf.org/doc/html/rfc5051
     "i;unicode-casemap": lambda a, b, k: _match(
-        a.encode("utf-8", "surrogateescape").upper(),
-        b.encode("utf-8", "surrogateescape").upper(),
+        a.upper(),
+        b.upper(),
         k,
     ),
 }
